@@ -27,8 +27,9 @@ Grids    == {"A", "B", "C"}                 \* A and B have the same length, C a
 GridLen  == [g \in Grids |-> IF g = "C" THEN 2 ELSE 1]
 \* schedules (single-phase only): S varies in time, K is constant at the constructor's pressure;
 \* both have the length of grids A and B.  "none" = argument omitted.
-Scheds   == IF Kind = "single" THEN {"S", "K"} ELSE {}
-SchedLen == [s \in {"S", "K"} |-> 1]
+\* "O" is a schedule with ONE element (a length no time grid of the alphabet has: always rejected, never broadcast).
+Scheds   == IF Kind = "single" THEN {"S", "K", "O"} ELSE {}
+SchedLen == [s \in {"S", "K", "O"} |-> IF s = "O" THEN 3 ELSE 1]
 Modes    == {"flux", "density"}
 
 NoSim   == [grid |-> "none", sched |-> "none"]
